@@ -15,8 +15,13 @@ def scan():
             src = src[:cut]
         src = re.sub(r"//[^\n]*", "", src)
         flat = re.sub(r"\s+", " ", src)
-        for m in re.finditer(r"\bimpl\s*(<[^{}]*?>)?\s*(?:crate::)?EncodeLike\b\s*(<[^{}]*?>)?\s*for\s+([^{}]+?)\s*(?=\{|\bwhere\b)", flat):
+        for m in re.finditer(r"\bimpl\s*(<[^{}]*?>)?\s*(?:crate::)?EncodeLike\b\s*(<[^{}]*?>)?\s*for\s+([^{}]+?)\s*(?:\bwhere\b([^{}]*?))?\s*\{", flat):
+            # the bounds (generic parameter list and where clause) are part of what is declared:
+            # relaxing one declares more pairs alike
+            bounds = re.sub(r"\s+", "", (m.group(1) or "") + ("where" + m.group(4) if m.group(4) else "")).rstrip(",")
             h = "EncodeLike%s for %s" % (re.sub(r"\s+", "", m.group(2) or ""), re.sub(r"\s+", "", m.group(3)))
+            if bounds:
+                h += " | " + bounds
             heads.append((os.path.basename(f), h))
     return heads
 
